@@ -12,6 +12,11 @@ pub use self::codec::Codec;
 pub(crate) use self::encode::EncodeLtd;
 pub use self::packet::*;
 
+#[cfg(feature = "verif-hooks")]
+pub(crate) use self::encode::{
+    var_int_len as verif_var_int_len, var_int_len_from_size as verif_var_int_len_from_size,
+};
+
 pub type UserProperty = (ByteString, ByteString);
 pub type UserProperties = Vec<UserProperty>;
 
